@@ -160,6 +160,12 @@ def color_val(c):
     return getattr(c, "value", None)
 
 
+def _plain(se, v):
+    if isinstance(v, se.Length):
+        return ("Len", v.amount, v.units)
+    return v
+
+
 def observe_doc(se, svg, keep_path=False, rendered_stroke=False):
     """Read-only observation of a parsed tree: one record per rendered element, in document order.
 
@@ -196,6 +202,9 @@ def observe_doc(se, svg, keep_path=False, rendered_stroke=False):
         elif isinstance(e, se.Text):
             t = e.transform
             out.append({"n": n, "cls": cls, "text": e.text, "xf": (t.a, t.b, t.c, t.d, t.e, t.f) if t is not None else None, "x": e.x, "y": e.y, "fill": color_val(e.fill), "stroke": color_val(e.stroke), "id": e.id})
+        elif isinstance(e, se.Image):
+            t = e.transform
+            out.append({"n": n, "cls": cls, "url": e.url, "x": _plain(se, e.x), "y": _plain(se, e.y), "w": _plain(se, e.width), "h": _plain(se, e.height), "xf": (t.a, t.b, t.c, t.d, t.e, t.f) if t is not None else None, "id": e.id})
         elif isinstance(e, se.Title):
             out.append({"n": n, "cls": cls, "text": e.title, "id": e.id})
         elif isinstance(e, se.Desc):
